@@ -512,6 +512,66 @@ func scenarioC18Air(c *Ctx) {
 	}
 	c.Notes["operation_files"] = total
 	c.Notes["classes"] = kinds
+	c18FileNames(c)
+}
+
+// c18FileNames: Operation.Filename against its model (Node/FileName.v) on hostile identifiers - path
+// separators, "..", NUL, backslashes, non-ASCII and invalid UTF-8, cut in the middle of a rune by the
+// five-byte limit - for every operation type; and the oracle the theorem states: no byte of the name is
+// anything but a letter, a digit, '.', '_' or '-'
+func c18FileNames(c *Ctx) {
+	types := map[string]string{"invite": "state_sig_proposal_await_participants_confirmations", "commits": opCommits, "deals": opDeals,
+		"responses": opResponses, "master": opMaster, "sign": "state_signing_await_partial_signs", "collected": "state_signing_partial_signs_collected",
+		"reinit": "reinit_dkg", "unknown": "no_such_operation/../type"}
+	kindsOrder := []string{"invite", "commits", "deals", "responses", "master", "sign", "collected", "reinit", "unknown"}
+	pool := [][]byte{[]byte(""), []byte("a"), []byte("round"), []byte("../../etc/passwd"), []byte("/abs"), []byte("a/b"), []byte("a\\b"), {0, 1, 2}, []byte("é"), []byte("ab\xc3\xa9cd"),
+		[]byte("abcd\xc3\xa9"), []byte("\xff\xfe\xfd"), []byte("\xe2\x82"), []byte("日本語のラウンド"), []byte("\xf0\x9f\x98\x80x"), []byte("\xed\xa0\x80"), []byte("\xc0\xaf"), []byte("a b\tc\nd"),
+		[]byte("UPPER.lower-0_9"), []byte("dcd7312b48e3d899b1855d61ce49745827fce4b1d30291c2637c088af1ab2097")}
+	n := 60
+	if !c.Quick() {
+		n = 600
+	}
+	hexOr := func(b []byte) string {
+		if len(b) == 0 {
+			return "-"
+		}
+		return fmt.Sprintf("%x", b)
+	}
+	for i := 0; i < n; i++ {
+		kind := kindsOrder[i%len(kindsOrder)]
+		pick := func() []byte {
+			if c.Rng.Intn(4) == 0 {
+				b := make([]byte, c.Rng.Intn(9))
+				c.Rng.Read(b)
+				return b
+			}
+			return pool[c.Rng.Intn(len(pool))]
+		}
+		round, id, batch := pick(), pick(), pick()
+		o := ctypes.Operation{ID: string(id), Type: ctypes.OperationType(types[kind]), DKGIdentifier: string(round)}
+		batchField := "none"
+		if kind == "sign" {
+			if c.Rng.Intn(5) == 0 {
+				o.Payload = []byte(`{"BatchID":`) // does not decode: no batch part in the name
+			} else {
+				o.Payload, _ = json.Marshal(map[string]interface{}{"BatchID": string(batch)})
+				var p struct{ BatchID string }
+				json.Unmarshal(o.Payload, &p) // what Filename will see (JSON replaces invalid UTF-8)
+				batchField = hexOr([]byte(p.BatchID))
+			}
+		}
+		name := o.Filename()
+		for _, b := range []byte(name) {
+			ok := (b >= 'a' && b <= 'z') || (b >= 'A' && b <= 'Z') || (b >= '0' && b <= '9') || b == '.' || b == '_' || b == '-'
+			if !ok {
+				c.Fail(Failure{Property: "C18", Kind: "file-name-escapes", Signature: map[string]interface{}{"kind": "file-name-escapes"},
+					What:   fmt.Sprintf("the file name of an operation contains the byte 0x%02x (identifiers from the board reach the file system unsanitised)", b),
+					Replay: map[string]interface{}{"type": types[kind], "round_hex": hexOr(round), "id_hex": hexOr(id), "batch": batchField, "name_hex": fmt.Sprintf("%x", name)}})
+				break
+			}
+		}
+		c.Case("file-name", true, fmt.Sprintf("filename %s %s %s %s", kind, hexOr(round), hexOr(id), batchField), "filename "+fmt.Sprintf("%x", name))
+	}
 }
 
 func firstLine(s string) string {
